@@ -11,6 +11,9 @@ Correspondence (real skyllh code vs. Model/Stat.lean through Driver/C12.lean):
   * calculate_pval_from_trials_mixed: routing decision and eta default, exact;
   * polynomial_fit: np.polyfit coefficients are recorded, the inversion is compared (degree used, error kind,
     finite/NaN exact; value relative to the magnitude of the terms before cancellation);
+  * purity oracle on every helper (TS classes, calculate_pval_from_trials[_mixed], polynomial_fit): byte snapshots of all
+    array arguments before/after, same argument objects called twice and with other scalar parameters vs. fresh
+    copies, inputs as list / int64 / float32 / float64 / read-only / non-contiguous arrays;
   * Python keyword binding (pyBind) vs. the real interpreter on generated signatures, exact.
 Property oracles (implementation only): documented definitions in exact `fractions`, analytic + finite
 difference derivatives of the real LLH ratio, range / monotonicity / inclusive>=strict of p-values, residual
@@ -725,6 +728,157 @@ def o_poly(ctx, case):
 
 
 # ------------------------------------------------------------------------------------------
+# purity of every helper: no writes into caller arrays, same objects twice -> same result, any input form
+
+FORMS = ('f64', 'ro', 'strided', 'int', 'f32', 'list')
+
+
+def _mk(vals, form):
+    """the values as list / float64 / read-only float64 / non-contiguous float64 view / int64 / float32"""
+    vals = _fl(vals)
+    if form == 'list':
+        return list(vals)
+    if form == 'int':
+        return np.array([int(v) for v in vals], dtype=np.int64)
+    a = np.array(vals, dtype=np.float64)
+    if form == 'f32':
+        return a.astype(np.float32)
+    if form == 'strided':
+        b = np.empty(2 * len(a) + 1, dtype=np.float64)
+        b[:] = -777.0
+        b[1::2] = a
+        return b[1::2]
+    if form == 'ro':
+        a.flags.writeable = False
+    return a
+
+
+def _snap(o):
+    if isinstance(o, np.ndarray):
+        base = o.base if isinstance(o.base, np.ndarray) else o
+        return (o.dtype.str, o.shape, o.tobytes(), base.tobytes())
+    return ('list', [repr(v) for v in o])
+
+
+def _norm(fn):
+    try:
+        with warnings.catch_warnings():
+            warnings.simplefilter('ignore')
+            with np.errstate(all='ignore'):
+                r = fn()
+        if isinstance(r, tuple):
+            return ('ok',) + tuple(float(v) for v in r)
+        return ('ok', float(r))
+    except Exception as e:  # noqa
+        return ('err', type(e).__name__, str(e)[:120])
+
+
+def _mixed_with_recorder(tsv, thr, kw):
+    import skyllh.core.utils.analysis as ua
+    rec = _GammaRecorder()
+    orig = ua.calculate_pval_from_gammafit_to_trials
+    ua.calculate_pval_from_gammafit_to_trials = rec
+    try:
+        r = ua.calculate_pval_from_trials_mixed(tsv, thr, **kw)
+        return (r[0], r[1], float(len(rec.calls)), rec.calls[0][0] if rec.calls else -1.0)
+    finally:
+        ua.calculate_pval_from_gammafit_to_trials = orig
+
+
+def _purity_setup(case):
+    """-> (names of array arguments, make(form) -> dict of argument objects, call(objs, params) -> result)"""
+    h = case['helper']
+    if h in ('pval', 'mixed'):
+        from skyllh.core.utils.analysis import calculate_pval_from_trials
+
+        def make(form):
+            return {'tsv': _mk(case['tsv'], form)}
+
+        def call(o, q):
+            kw = {} if q.get('op') is None else {'comp_operator': OPS[q['op']]}
+            if h == 'pval':
+                return calculate_pval_from_trials(o['tsv'], _f(q['thr']), **kw)
+            if q.get('switch') is not None:
+                kw['switch_at_ts'] = _f(q['switch'])
+            return _mixed_with_recorder(o['tsv'], _f(q['thr']), kw)
+        return make, call
+    if h == 'poly':
+        from skyllh.core.utils.analysis import polynomial_fit
+
+        def make(form):
+            return {'x': _mk(case['x'], form), 'y': _mk(case['y'], 'f64' if form == 'int' else form),
+                    'w': _mk(case['w'], 'f64' if form == 'int' else form)}
+
+        def call(o, q):
+            return polynomial_fit(o['x'], o['y'], o['w'], q['deg'], _f(q['pthr']))
+        return make, call
+    if h in ('ts', 'tst'):
+        pmm, idx, fp0 = _fp_of(case)
+        g0 = [0.125 * (i + 1) for i in range(len(fp0))]
+        g0[idx] = _f(case.get('a', 0.0))
+        tsobj = _ts_new('wilks' if h == 'ts' else 'taylor')
+
+        def make(form):
+            return {'fp': _mk(fp0.tolist(), form), 'grads': _mk(g0, 'f64' if form == 'int' else form)}
+
+        def call(o, q):
+            kw = dict(pmm=pmm, log_lambda=np.float64(_f(q['ll'])), fitparam_values=o['fp'])
+            if h == 'tst':
+                kw['llhratio'] = _StubLLH(_f(case['b']), g0)
+                kw['grads'] = o['grads']
+            return tsobj(**kw)
+        return make, call
+    raise ValueError(h)
+
+
+def _res_same(a, b):
+    if a[0] != b[0] or len(a) != len(b):
+        return False
+    if a[0] == 'err':
+        return a[1] == b[1]
+    return all(_same(x, y) for x, y in zip(a[1:], b[1:]))
+
+
+def o_purity(ctx, case):
+    """a helper is a pure function of its arguments: it never writes into the caller's arrays, accepts read-only /
+    non-contiguous / int / float32 arrays (and lists where array_like is documented) with the result of the plain
+    float64 call, and calling it again with the same argument objects (same or other scalar parameters) gives what
+    fresh copies of the data give"""
+    h, form = case['helper'], case['form']
+    make, call = _purity_setup(case)
+    q1, q2 = case['first'], case['second']
+    what = '%s with %s input' % (h, {'f64': 'float64 ndarray', 'ro': 'read-only float64 ndarray', 'strided': 'non-contiguous float64 view',
+                                      'int': 'int64 ndarray', 'f32': 'float32 ndarray', 'list': 'list'}[form])
+    ref1 = _norm(lambda: call(make('f64'), q1))
+    objs = make(form)
+    before = {k: _snap(v) for k, v in objs.items()}
+    r1 = _norm(lambda: call(objs, q1))
+    for k, v in objs.items():
+        if _snap(v) != before[k]:
+            return '%s: the call %r wrote into the caller\'s argument %r (before %r, after %r)' % (
+                what, q1, k, _fl(case.get(k, [])) if k in case else '...', np.asarray(v).tolist())
+    if ref1[0] == 'ok' and r1[0] != 'ok':
+        return '%s: the call %r raised %s: %s, with a float64 ndarray it returns %r' % (what, q1, r1[1], r1[2], ref1[1:])
+    if ref1[0] == 'ok':
+        tol = 1e-3 if form == 'f32' else 0.0
+        for a, b in zip(r1[1:], ref1[1:]):
+            if not _close(a, b, tol * (abs(b) + 1e-300)):
+                return '%s: the call %r returns %r, with a float64 ndarray of the same values %r' % (what, q1, r1[1:], ref1[1:])
+    r1b = _norm(lambda: call(objs, q1))
+    if not _res_same(r1b, r1):
+        return '%s: two calls with the same argument objects and %r return %r and then %r' % (what, q1, r1[1:], r1b[1:])
+    r2 = _norm(lambda: call(objs, q2))
+    fresh2 = _norm(lambda: call(make(form), q2))
+    if not _res_same(r2, fresh2):
+        return '%s: after a call with %r, the call %r on the same argument objects returns %r; on fresh copies of the data it returns %r' % (
+            what, q1, q2, r2[1:], fresh2[1:])
+    for k, v in objs.items():
+        if _snap(v) != before[k]:
+            return '%s: the calls wrote into the caller\'s argument %r' % (what, k)
+    return None
+
+
+# ------------------------------------------------------------------------------------------
 # Python keyword binding: real interpreter
 
 def impl_bind(case):
@@ -975,7 +1129,7 @@ def _corr_hist(ctx, hcases):
     return res
 
 
-ORACLES = {'ts_history': o_ts_history, 'ts': o_ts, 'ts_taylor': o_ts_taylor, 'ts_real': o_ts_real, 'ana_chain': o_ana_chain,
+ORACLES = {'purity': o_purity, 'ts_history': o_ts_history, 'ts': o_ts, 'ts_taylor': o_ts_taylor, 'ts_real': o_ts_real, 'ana_chain': o_ana_chain,
            'pval': o_pval, 'mixed': o_mixed, 'poly': o_poly, 'corr': o_corr}
 
 # property oracle looking at the same behaviour as a correspondence kind, and how to turn the case into its input
@@ -993,6 +1147,12 @@ _ORACLE_OF_KIND = {
 def _classify(res):
     if 'a fresh instance gives' in res:
         return 'depends-on-earlier-calls'
+    if "wrote into the caller" in res:
+        return 'writes-into-argument'
+    if 'on fresh copies of the data' in res or 'two calls with the same argument objects' in res:
+        return 'depends-on-earlier-calls'
+    if 'with a float64 ndarray' in res:
+        return 'input-form'
     m = re.search(r'raised (\w+)', res)
     if m:
         return 'raises-' + m.group(1)
@@ -1095,6 +1255,49 @@ def gen_real(rng, nprng):
     return c
 
 
+def _f32_exact(v):
+    return float(np.float32(v))
+
+
+def gen_purity(rng):
+    h = rng.choice(['pval', 'mixed', 'poly', 'poly', 'ts', 'tst'])
+    form = rng.choice(FORMS)
+    if h in ('pval', 'mixed'):
+        if form == 'list':
+            form = 'ro'                     # documented as ndarray
+        n = rng.choice([1, 2, 5, 13, 40])
+        if form == 'int':
+            vals = [float(rng.randrange(-2, 9)) for _ in range(n)]
+        else:
+            vals = [_f32_exact(rng.choice([rng.uniform(-2, 12), float(rng.randrange(0, 6)) * 0.5])) for _ in range(n)]
+        thrs = [rng.choice(vals + [3.0, 0.0, 2.5, _f32_exact(rng.uniform(-3, 13))]) for _ in range(2)]
+        c = {'helper': h, 'form': form, 'tsv': vals,
+             'first': {'thr': thrs[0], 'op': rng.choice([0, 1, None])}, 'second': {'thr': thrs[1], 'op': rng.choice([0, 1, None])}}
+        if h == 'mixed':
+            c['first']['switch'] = rng.choice([None, 3.0, 1.0])
+            c['second']['switch'] = rng.choice([None, 3.0, 5.0])
+        return c
+    if h == 'poly':
+        xs, ys, ws = gen_curve(rng)
+        if form == 'int':
+            xs = [float(i + rng.randrange(0, 3)) for i in range(0, 3 * len(xs), 3)]
+        if form == 'f32':
+            xs, ys, ws = [_f32_exact(v) for v in xs], [_f32_exact(v) for v in ys], [_f32_exact(v) for v in ws]
+        d1 = rng.choice([1, 2, 2]) if len(xs) > 3 else 1
+        d2 = rng.choice([1, 2, 2]) if len(xs) > 3 else 1
+        return {'helper': h, 'form': form, 'x': xs, 'y': ys, 'w': ws,
+                'first': {'deg': d1, 'pthr': rng.choice([0.5, 0.9, 0.7])}, 'second': {'deg': d2, 'pthr': rng.choice([0.5, 0.9, 0.3])}}
+    if form in ('list', 'int'):
+        form = rng.choice(['ro', 'strided'])          # documented as float ndarray
+    c = {'helper': h, 'form': form, 'layout': rng.choice(['ns0', 'ns1', 'ns2']), 'ns': _f32_exact(gen_ns(rng)),
+         'others': [rng.choice([2.5, -2.5, 0.0, 7.0, -3.0]) for _ in range(4)],
+         'first': {'ll': gen_ll(rng)}, 'second': {'ll': gen_ll(rng)}}
+    if h == 'tst':
+        c['a'] = rng.choice([0.0, -0.25, 0.75, 2.0])
+        c['b'] = rng.choice([-0.0625, -1.0, -4.0])
+    return c
+
+
 def gen_hist(rng):
     cls = rng.choice(['wilks', 'taylor'])
     n = rng.choice([2, 2, 3, 4, 6])
@@ -1134,7 +1337,8 @@ def run(ctx):
                 '0..20 pure-background events); TS samples of 0..200 values (grid values with ties and duplicates, constant, '
                 'chi2-like, floats) x thresholds at sample values, their float neighbours, midpoints, outside, +-inf; monotone '
                 'p(ns) curves (linear, concave, convex, sigmoid; increasing and decreasing) with binomial noise, 3..12 points, '
-                'degrees 1 and 2 (0 and 3 for the error path); generated Python signatures x calls; a case is non-trivial when '
+                'degrees 1 and 2 (0 and 3 for the error path); every helper with its array arguments as list / int64 / float32 / float64 / '
+                'read-only / non-contiguous arrays, called twice on the same objects; generated Python signatures x calls; a case is non-trivial when '
                 'distinct by (kind, all inputs)')
     ctx.trusted_base += ['correspondence harness harness/props/c12.py (relations stated in its docstring)',
                          'harness/llh_fixtures.py stub PDF ratios / yields around the real LLH-ratio classes',
@@ -1166,6 +1370,11 @@ def run(ctx):
         ctx.count('hist:%s:len=%d' % (h['cls'], len(h['calls'])))
         ctx.count('hist:layout-changes', sum(1 for a, b in zip(h['calls'], h['calls'][1:]) if a['layout'] != b['layout']))
         ocases.append(('ts_history', h))
+    # ---- purity of every helper (caller arrays untouched, same objects twice, input forms)
+    for _ in range(ctx.n(300, 6000)):
+        c = gen_purity(rng)
+        ctx.count('purity:%s:%s' % (c['helper'], c['form']))
+        ocases.append(('purity', c))
     # ---- real LLH ratios
     reals = [gen_real(rng, nprng) for _ in range(ctx.n(40, 1500))]
     for c in reals:
